@@ -3,7 +3,10 @@ package interp
 import (
 	"go/token"
 	"go/types"
+	"unsafe"
 )
+
+var _ = unsafe.Pointer(nil)
 
 // sync/atomic: execution is sequential, so these are plain loads and stores.
 func init() {
@@ -55,6 +58,11 @@ func init() {
 			v := *last(fr, args[0])
 			if ty == "Bool" {
 				return v.(uint32) != 0
+			}
+			if ty == "Pointer[T]" {
+				if _, isPtr := v.(*value); !isPtr {
+					return (*value)(nil) // zero unsafe.Pointer: a nil *T
+				}
 			}
 			return v
 		})
